@@ -313,9 +313,8 @@ def classify_message(case, r, o):
         f = case.get('inject')
         if f:
             return f
-    if 'function {} is' in msg:              # Error("function {} is not defined", n): unformatted message, n in the code
-        c0 = o.get('code') if o['kind'] == 'sol' and o.get('complete') else None
-        return ('body', 'fmtIntArg', c0 if c0 is not None and c0 != 500 else 0)
+    if re.search(r'function (\d+|\{\}) is (not|already) defined', msg):      # NLProblemBuilder::BeginCall / DefineFunction (3651d33: MP_RAISE-like)
+        return ('body', 'plain', None)
     if re.search(r'cannot open file [^\n]*\.nl', msg):
         return ('openNL', 'systemError', None)
     if re.search(r'\.nl:(\d+:\d+|offset \d+): ', msg):
@@ -474,10 +473,7 @@ def oracle(case, sc, o):
         else:
             good = ok[cause]()
         if not good:
-            if rz == 'fmtIntArg':
-                dev.append(('fmtintcode:%s' % ending[0], 'Error("… {} …", n) with a single int argument: the number (%d) became the solve code instead of a '
-                            'failure code, and the message is not formatted' % c))
-            elif c == 500 and rz == 'wrappedInfeas':
+            if c == 500 and rz == 'wrappedInfeas':
                 dev.append(('infeas500:%s' % ending[0], 'model proven infeasible during conversion ("Model infeasible: …") but the .sol carries solve code 500, not 200-299'))
             elif c == 1 and rz in EXITFAIL:
                 dev.append(('code1:%s:%s' % (rz, ending[0]), 'failure (%s at %s) reported with solve code 1 (class "solved") in the .sol' % (rz, ending[0])))
@@ -524,11 +520,8 @@ def scenario_line(case, ending_fault, dims, ans, partial=(0, 0)):
     op = case.get('outpath', 'ok')
     can_open = 0 if op in ('isdir', 'dangling', 'readonly') else 1
     can_flush = 0 if op == 'devfull' else can_open
-    if ending_fault is None:
-        f = 'none'
-    else:
-        st, rz, c = ending_fault
-        f = '%s:%s' % (st, rz) + (':%d' % c if rz in ('withCode', 'fmtIntArg') else '')
+    fl = ending_fault if isinstance(ending_fault, list) else ([ending_fault] if ending_fault else [])
+    f = ','.join('%s:%s' % (st, rz) + (':%d' % c if rz == 'withCode' else '') for st, rz, c in fl) or 'none'
     return 'run %s %d %d %s %d %d %d %d %d %d %d %d %s %d %d %d' % (
         flags, 1 if case.get('stub', True) else 0, 1 if case.get('ampl') else 0, opts, 1 if case.get('objno_big') else 0,
         1 if case.get('just_export') else 0, dims[0], dims[1], partial[0], partial[1], can_open, can_flush, f, ans[0], 1 if ans[1] else 0, 1 if ans[2] else 0)
@@ -1087,8 +1080,9 @@ def corpus_cases(cg):
     m2 = nlgen.Model(); m2.var(0, 3); m2.obj('min', {0: 1}); m2.con(None, 5, {}, ('pow', ('+', ('n', 1), ('n', 1)), ('v', 0)))
     c = cg.base('corpus:fixed_pow_constant_expression_base', m2); c['natural'] = 'none';   # b539091: (1+1)^x is solved
     c['all_opts'] = []; out.append(c)
-    for fn_no, nat in ((250, ('body', 'fmtIntArg', 250)), (5, ('body', 'fmtIntArg', 5)), (700, ('body', 'fmtIntArg', 700)), (1234, ('body', 'fmtIntArg', 1234))):
-        c = mk('%sundeclared_function_%d' % ('counterexample_' if fn_no in (250, 1234) else '', fn_no))
+    for fn_no in (250, 5, 700, 1234):        # 3651d33: diagnosed with a formatted message and a failure code
+        nat = ('body', 'plain', None)
+        c = mk('fixed_undeclared_function_%d' % fn_no, expect_msg_re=r'function %d is not defined' % fn_no)
         L = c['nl'].split('\n'); L[5] = ' 0 2000 0 1'; L[2] = ' 1 0'; L[4] = ' 1 0 0'
         L[L.index('C0') + 1] = 'f%d 0' % fn_no
         c['nl'] = '\n'.join(L); c['natural'] = nat
@@ -1162,6 +1156,14 @@ def evaluate(case, r):
         others = [f for f in cands if f != fault and f[0] == 'convert']
         if others:
             fault = others[0]
+    # the whole environment for the pipeline model: every stage that would raise (one entry per stage, ties within a stage
+    # resolved above), latest first - the Lean fold has to find the first one in execution order itself
+    behs = ([fault] if fault else []) + [f for f in cands if fault and f[0] != fault[0]]
+    seen, uniq = set(), []
+    for f in behs:
+        if f[0] not in seen:
+            seen.add(f[0]); uniq.append(f)
+    case['_behs'] = sorted(uniq, key=lambda f: -STAGES.index(f[0]))
     return o, fault, inferred
 
 
@@ -1179,7 +1181,7 @@ ALL_ARMS = (['parseFlags.' + x for x in ('nil', 'wantsol', 'noecho', 'dashdash',
             ['reportCode.mpError>=100', 'reportCode.mpError<100', 'reportCode.stdExn'] +
             ['conclude.finished-retry-after-write-error', 'conclude.exported', 'conclude.info'] +
             ['suppressMsg.true', 'suppressMsg.false'] +
-            ['Raise.' + k for k in KINDS + ['wrappedInfeas', 'fmtIntArg']] + ['Stage.' + st for st in STAGES])
+            ['Raise.' + k for k in KINDS + ['wrappedInfeas']] + ['Stage.' + st for st in STAGES])
 EXIT_CODE_OF = {'plain': -1, 'infeas': 200, 'wrappedInfeas': 200, 'solCheck': 150, 'unsupported': 1, 'optionError': -1, 'readError': 1, 'fmtError': 1}
 
 
@@ -1260,7 +1262,7 @@ def model_arms(c, fault, ending, wantsol_eff=None):
                 if kind == 'stdExn':
                     A.add('reportCode.stdExn')
                 else:
-                    ec = code if rz in ('withCode', 'fmtIntArg') else EXIT_CODE_OF.get(rz, -1)
+                    ec = code if rz == 'withCode' else EXIT_CODE_OF.get(rz, -1)
                     A.add('reportCode.mpError>=100' if ec is not None and ec >= 100 else 'reportCode.mpError<100')
     return A, writable
 
@@ -1465,10 +1467,10 @@ def run(ck):
     translator_ok = rc == 0
     if translator_ok:
         proof_ok, failing = ck.proof_stage('MpVerif.C09.Props', 'MpVerif/C09/Props.lean', 'C09_',
-                                            ['MpVerif/C09/*.lean', 'MpVerif/Gen/C09Driver.lean'], expect_min=46)
+                                            ['MpVerif/C09/*.lean', 'MpVerif/Gen/C09Driver.lean'], expect_min=51)
     else:
         proof_ok, failing = False, ['translator gen_c09.py: ' + (out + err).strip()[-400:]]
-        ck.cov.update({'obligations': 46, 'discharged': 0, 'checker_cmd': 'translators/gen_c09.py failed'})
+        ck.cov.update({'obligations': 51, 'discharged': 0, 'checker_cmd': 'translators/gen_c09.py failed'})
     ck.log('proof stage: ok=%s failing=%s' % (proof_ok, failing[:8]))
     if ck.tier == 'thorough' and proof_ok:
         bad = ck.leanchecker(['MpVerif.C09.Props'])
@@ -1500,7 +1502,7 @@ def run(ck):
             # which vectors the (unscripted) solver stub returns after postsolve is part of the solver's answer, not of the driver logic
             ans = (ans[0], o['nprimals'] > 0, o['nduals'] > 0)
         partial = (o['ncons'], o['nvars']) if (fault and fault[0] == 'populate' and o['kind'] == 'sol' and o.get('complete')) else (0, 0)
-        lines.append(scenario_line(c, fault, dims, ans, partial))
+        lines.append(scenario_line(c, c.get('_behs') or fault, dims, ans, partial))
         evals.append((o, fault, inferred))
     p = subprocess.run([drv], input='\n'.join(lines) + '\n', capture_output=True, text=True)
     model = p.stdout.split('\n')
@@ -1550,7 +1552,7 @@ def run(ck):
         for a_ in A:
             arms[a_] = arms.get(a_, 0) + 1
         n_inferred += inferred
-        replay = {'case': {k: v for k, v in c.items() if k not in ('id',)}, 'observed': obs_s, 'model': ml,
+        replay = {'case': {k: v for k, v in c.items() if k not in ('id', '_behs')}, 'observed': obs_s, 'model': ml,
                   'scenario_line': lines[idx], 'cmdline': r.get('cmdline'), 'env': r.get('env'), 'stdout': r['out'][-600:], 'stderr': r['err'][-1500:],
                   'sol': (r['sol'] or '')[:600], 'how': './check C09 --replay <this file>'}
         # (a) correspondence model vs implementation
@@ -1566,6 +1568,8 @@ def run(ck):
               'progress': 'report' if '"ev":"solve"' in r['log'] else ('convert' if '"ev":"begin"' in r['log'] else 'read-or-options'),
               'names_first_empty': any((c.get(e) or 'x').startswith(('\n', '\r')) for e in ('col', 'row'))}
         devs = oracle(c, sc, o)
+        if c.get('expect_msg_re') and not (o['kind'] == 'sol' and o.get('complete') and re.search(c['expect_msg_re'], o.get('message', ''))):
+            devs.append(('regression:message', 'the diagnostic does not match %r: %r' % (c['expect_msg_re'], (o.get('message') or r['err'] or r['out'])[:120])))
         latent = c.get('synthetic') and c.get('inject') and (
             (c['inject'][1] == 'foreign') or (c['inject'][0] == 'ctor'))
         for sig, text in devs:
